@@ -136,7 +136,7 @@ def case_dir():
 # matrix
 
 SAVE_FUNCS = ["save_dataset", "save_model", "save_parameters", "save_scheme", "save_result"]
-STATES = ["absent", "file", "empty_dir", "nonempty_dir"]
+STATES = ["absent", "file", "empty_dir", "nonempty_dir", "dot_only_dir"]
 UNKNOWN_FORMAT = "verif_unknown"
 HALF_FORMAT = "verif_half"
 
@@ -194,6 +194,9 @@ def matrix_cases(tier: str) -> list:
                 for allow in (False, True):
                     for mode in ("explicit", "inferred"):
                         out.append({"fn": fn, "format": fmt, "state": state, "allow_overwrite": allow, "mode": mode})
+                    if fn == "save_result" and fmt not in (UNKNOWN_FORMAT, HALF_FORMAT):
+                        # the folder spelling of the target (no extension), which every result format accepts
+                        out.append({"fn": fn, "format": fmt, "state": state, "allow_overwrite": allow, "mode": "explicit", "spelling": "bare"})
     return out
 
 
@@ -247,11 +250,16 @@ def prop_matrix(case):
         out.mkdir(parents=True)
         (work / "bystander.keep").write_bytes(b"precious bystander\n")
         (out / "bystander2.keep").write_bytes(b"precious neighbour\n")
-        target = out / f"target.{fmt}"
+        target = out / ("target_dir" if case.get("spelling") == "bare" else f"target.{fmt}")
         if state == "file":
             target.write_bytes(b"precious target\n")
-        elif state in ("empty_dir", "nonempty_dir"):
+        elif state in ("empty_dir", "nonempty_dir", "dot_only_dir"):
             target.mkdir()
+            if state == "dot_only_dir":
+                # the smallest non-empty folder: hidden entries only
+                (target / ".gitkeep").write_bytes(b"")
+                (target / ".ipynb_checkpoints").mkdir()
+                (target / ".ipynb_checkpoints" / "notebook-checkpoint.ipynb").write_bytes(b"precious hidden content\n")
             if state == "nonempty_dir":
                 (target / "keep.txt").write_bytes(b"precious content\n")
                 (target / "sub").mkdir()
@@ -261,7 +269,7 @@ def prop_matrix(case):
         supported = known and fmt != HALF_FORMAT and _supported(fn, fmt)
         folder_target = fn == "save_result" and target.suffix not in (".yml", ".yaml")
         before = snapshot(work)
-        protected = state in ("file", "nonempty_dir")
+        protected = state in ("file", "nonempty_dir", "dot_only_dir")
         kwargs = {"allow_overwrite": True} if allow else {}
         raised = None
         try:
@@ -269,7 +277,7 @@ def prop_matrix(case):
         except Exception as e:  # noqa: BLE001
             raised = e
         after = snapshot(work)
-        tags = [fn, f"format={fmt}", state, "overwrite" if allow else "protect", mode]
+        tags = [fn, f"format={fmt}", state, "overwrite" if allow else "protect", mode] + (["folder_spelling"] if case.get("spelling") == "bare" else [])
         where = f"{fn}(format={fmt!r}, {mode}) target={state} allow_overwrite={allow}"
         if protected and not allow:
             check(isinstance(raised, FileExistsError), "matrix.refuses",
@@ -280,7 +288,7 @@ def prop_matrix(case):
         for name in ("bystander.keep", "out/bystander2.keep"):
             check(after.get(name) == before[name], "matrix.bystander", lambda: f"{where}: {name} touched: {snap_diff(before, after)}")
         wellformed = supported and (
-            state in ("absent", "empty_dir", "nonempty_dir") if folder_target else state in ("absent", "file")
+            state in ("absent", "empty_dir", "nonempty_dir", "dot_only_dir") if folder_target else state in ("absent", "file")
         )
         if wellformed:
             check(raised is None, "matrix.saves", lambda: f"{where}: {type(raised).__name__}: {raised}")
